@@ -74,6 +74,10 @@ CHECKS['C19'] = ('E4', 'model_checking',
     'The real Node / Client / Server / Protocol / utils stack runs on a scripted transport (the TCP components are replaced by recorders; the harness delivers the recorded bytes to the other side cut exactly as the enumerated segmentation says). Round trips (4 trees, 6 routes): 1-3 events in flight over every route combination, results returned in every order, 14 argument shapes incl. 5 000 / 10 000 / 70 000 B and delimiter or "value": inside strings, 17 receiving handler behaviours, all feedback flag sets, firewalls on both sides, every single cut / byte-at-a-time / fixed chunkings / cuts around the delimiter and every 4096 boundary: the receiving handler runs exactly once, the sender generator gets its value and error flag, rejected events are neither written nor dispatched. Hostile peer under the real run(): truncation at every offset, non-object / partial JSON, wrong types for every key, oversized and deeply nested packets, every metadata key (33, from dir(Event()) and the attributes the dispatcher reads) singly and in pairs, differential against empty meta: the loop keeps running, a sentinel and the honest peer are served. Serialisation round trip of events and values.',
     'Trusted: scripted transport in place of TCP components; class-level registries of Node/Server are reset per case; cost of oversized packets not judged.',
     'bounded-exhaustive input/segmentation/fault enumeration through the real node stack, real run() for liveness', 'DESIGN.md 6/C19')
+CHECKS['C13'] = ('E4', 'model_checking',
+    'Differential, exhaustive over a message grammar x cut sets: 112 well-formed requests (methods, targets with query, HTTP/1.0 and 1.1, header sets incl. folded continuation lines and Connection wishes, bodies: none, Content-Length 0/5, chunked with 1-2 chunks, chunk extension, trailer), alone and as two keep-alive requests (second after the first response), are delivered to the real HTTP server component under a stub server with every single cut, pairs of cuts (quick: within 3 bytes around structural boundaries; thorough: all pairs for messages up to 90 bytes) and byte-at-a-time; the request events (method, path, query string, protocol, headers, body) and the response bytes (modulo Date) must equal those of one-piece delivery. Same for 8 response shapes (200/204/304/404; Content-Length, chunked, until-close; sequences of two) through the real HTTP client component.',
+    'Trusted: the one-piece delivery as reference (differential oracle); an echoing request handler makes the response depend on everything parsed; no pipelining.',
+    'bounded-exhaustive input/segmentation enumeration with a differential oracle', 'DESIGN.md 6/C13')
 NOT_YET = {}
 def main():
     props = [json.loads(l) for l in open(os.path.join(HERE, 'properties.jsonl'))]
